@@ -69,6 +69,9 @@ QUERIES = {
     "pq_proj": lambda: _pq("fsspec")[["k"]],
     "pqa_all": lambda: _pq("arrow"),
     "pqa_filter": lambda: (lambda x: x[x["w"] > 4][["k", "w"]])(_pq("arrow")),
+    # a reader that already carries a partition selection when it is first asked for its length
+    "pq_part1_opt": lambda: _pq("fsspec").partitions[1].optimize(),
+    "pq_part0_opt": lambda: _pq("fsspec")[["k"]].partitions[0].optimize(),
     "pq_div": lambda: _pq("fsspec", calculate_divisions=True),
     "pqa_div": lambda: _pq("arrow", calculate_divisions=True),
     "pq_div_loc": lambda: (lambda x: x.loc[x.divisions[1]:])(_pq("fsspec", calculate_divisions=True)),
@@ -301,9 +304,11 @@ def families(quick):
         "size": (["rp_200", "rp_400", "gb", "shared_sub"], ["optimize", "compute"] if quick else obs3, [["fail", "rp_200"], ["fail", "gb"], ["flood"]]),
         "frompandas": (["fp_2", "fp_3", "fp_3_sum"], ["compute", "divisions", "len"] if quick else obs3 + ["len"], [["keep", "fp_2"], ["drop", "fp_2"], ["flood"]]),
         "parquet": ((["pq_all", "pq_filter", "pqa_all", "pq_div", "pqa_div", "pqa_div_loc"] if quick else
-                     ["pq_all", "pq_filter", "pq_proj", "pqa_all", "pqa_filter", "pq_div", "pqa_div", "pq_div_loc", "pqa_div_loc"]),
+                     ["pq_all", "pq_filter", "pq_proj", "pqa_all", "pqa_filter", "pq_div", "pqa_div", "pq_div_loc", "pqa_div_loc", "pq_part1_opt", "pq_part0_opt"]),
                     ["compute", "divisions"] if quick else ["compute", "divisions", "len"],
                     [["rewrite", "toggle"], ["rewrite", "toggle", "to_parquet"], ["keep", "pq_all"], ["keep", "pqa_div"], ["drop", "pq_all"], ["drop", "pqa_div"], ["flood"]]),
+        # row counts answered from file statistics: readers with and without a partition selection / projection share one plan cache entry
+        "parquet_len": (["pq_all", "pq_proj", "pq_part1_opt", "pq_part0_opt", "pqa_all"], ["len"], [["rewrite", "toggle"], ["keep", "pq_part1_opt"], ["drop", "pq_part1_opt"], ["flood"]]),
     }
     return fam
 
@@ -332,7 +337,7 @@ def run(ctx):
             for q in qs:
                 for k in obs_kinds:
                     singles.append({"hist": [[k, q]], "config": config})
-                    if fam == "parquet":
+                    if fam.startswith("parquet"):
                         singles.append({"hist": [["rewrite", "toggle"], [k, q]], "config": config})
         ref = {}
         for it, r in pmap(run_history, [dict(x, fresh=True) for x in singles], chunk=1):
